@@ -233,7 +233,8 @@ RULE_C01 = ("cases = (layout, sequence of message lengths): layouts from the gen
             "next WRITE, two random WRITEs, the last two WRITEs, a random command; x = new (mostly), the old message, a "
             "variation of new; new lengths 0 (the zeroed length is the whole write), 1..40, 253..256, 300, capacity; "
             "then the reference reader and a fresh nfcpy activation must read exactly x; when that repetition raises "
-            "although the link is healthy and the length fits, that is a violation of 'assigning ... succeeds' as well.  "
+            "although the link is healthy and the length fits, that is a violation of 'assigning ... succeeds' as well "
+            "(single-sector tags only: with SECTOR SELECT a lost packet 2 cannot be told from its passive acknowledge).  "
             "Layout class 'in-filler' (vf.ref.t2_layout.filler_layout): the range of a control TLV lies inside the value "
             "of a proprietary TLV that precedes the NDEF TLV (directly behind its length field / in the middle / one "
             "value byte behind it / directly behind its last value byte), 1- and 3-byte length, up to 1200 bytes.  "
@@ -609,6 +610,12 @@ def c01_retry_case(case, R, writes=None):
         # layout is well-formed, the length fits - the repetition on the same object must not raise
         R.count("t2t_c01_retry_retry_raised")
         R.seen("t2t_c01_retry_retry_exceptions", exc_sig(e))
+        if len(image) > 1024:
+            # tags with more than one sector: a lost SECTOR SELECT packet 2 looks exactly like its passive acknowledge
+            # (see ASSUMPTIONS), the tag then answers the next command with NAK whatever the reader does: observed only
+            R.count("t2t_c01_retry_retry_raised_multi_sector_not_judged")
+            R.case(key, nontrivial=False)
+            return
         j0, cmd0, _wr = first_cmds[0]
         R.violation(sigbase + "write-raises/%s/%s" % ("after-lost-write" if cmd0[:1] == b"\xA2" else "after-lost-read", exc_sig(e)),
                     "%d failed attempt(s) of octets=<%d bytes> (exchanges lost from command %s on), then the fault-free "
